@@ -336,7 +336,7 @@ class DefaultOperatorResolver(OperatorResolver):
         def nested_product_expansion(
             parents: OrderedSet[Term], nested: OrderedSet[Term]
         ) -> OrderedSet[Term]:
-            common = functools.reduce(lambda x, y: x * y, parents)
+            common = functools.reduce(lambda x, y: x * y, parents, Term([]))
             return cast(
                 OrderedSet, parents | OrderedSet(common * term for term in nested)
             )
